@@ -176,7 +176,7 @@ Fixpoint take_used (u : N) (i : list byte) : list byte :=
 
 Section Run.
 Variable natf : string -> list val -> ares.
-Variable env : string -> option G.
+Variable env : N -> option G.
 Variable bound : nat.      (* loop counter: S (length of the whole buffer), computed once *)
 
 Definition step (self callee : G -> P) (g : G) : P :=
